@@ -33,7 +33,10 @@ func (e *Exec) boundFor(name string, t types.Type) int {
 		if w, _ := width(sl.Elem()); w == 8 {
 			return e.cfg.ByteBound
 		}
-		if tn := typeName(t); strings.HasSuffix(tn, "asn1.ObjectIdentifier") {
+		if tn := namedOf(t); strings.HasSuffix(tn, "asn1.ObjectIdentifier") {
+			if b, ok := e.cfg.Bounds["oid"]; ok {
+				return b
+			}
 			return 9
 		}
 	}
